@@ -349,6 +349,54 @@ func bridgeCloseShape() (found, fastPath bool) {
 	return
 }
 
+// disposeTimeoutShape: capacity of the result channel made by (*ResourceManager).DisposeWithTimeout.
+func disposeTimeoutShape() (found, buffered bool) {
+	fset := token.NewFileSet()
+	f, err := parser.ParseFile(fset, filepath.Join(repoRoot(), "internal/core/dispose/manager.go"), nil, 0)
+	if err != nil {
+		return
+	}
+	fd := findMethod(f, "ResourceManager", "DisposeWithTimeout")
+	if fd == nil {
+		return
+	}
+	ast.Inspect(fd.Body, func(n ast.Node) bool {
+		ce, ok := n.(*ast.CallExpr)
+		if !ok {
+			return true
+		}
+		if id, ok := ce.Fun.(*ast.Ident); ok && id.Name == "make" && len(ce.Args) >= 1 && strings.Contains(nodeText(fset, ce.Args[0]), "chan") {
+			found = true
+			if len(ce.Args) == 2 {
+				if bl, ok := ce.Args[1].(*ast.BasicLit); ok && bl.Value != "0" {
+					buffered = true
+				}
+			}
+		}
+		return true
+	})
+	return
+}
+
+// closeConnectionShape: in (*SessionManager).CloseConnection, is the map entry deleted before the stream is closed?
+func closeConnectionShape() (found, removeFirst bool) {
+	fset := token.NewFileSet()
+	f, err := parser.ParseFile(fset, filepath.Join(repoRoot(), "internal/protocol/session/connection_lifecycle.go"), nil, 0)
+	if err != nil {
+		return
+	}
+	fd := findMethod(f, "SessionManager", "CloseConnection")
+	if fd == nil {
+		return
+	}
+	txt := nodeText(fset, fd.Body)
+	id, ic := strings.Index(txt, "delete(s.connMap"), strings.Index(txt, "Stream.Close()")
+	if id < 0 || ic < 0 {
+		return
+	}
+	return true, id < ic
+}
+
 func coqBool(b bool) string {
 	if b {
 		return "true"
@@ -392,6 +440,12 @@ func gen() {
 	bf, bfp := bridgeCloseShape()
 	fmt.Println("(* Bridge.Close returns at once when the bridge is already closed *)")
 	fmt.Printf("Definition BridgeCloseFound : bool := %s.\nDefinition BridgeCloseFastPath : bool := %s.\n", coqBool(bf), coqBool(bfp))
+	df, dbuf := disposeTimeoutShape()
+	fmt.Println("(* ResourceManager.DisposeWithTimeout: the result channel has capacity >= 1 *)")
+	fmt.Printf("Definition DisposeTimeoutShapeFound : bool := %s.\nDefinition DisposeResultChanBuffered : bool := %s.\n", coqBool(df), coqBool(dbuf))
+	cf, crf := closeConnectionShape()
+	fmt.Println("(* SessionManager.CloseConnection deletes the map entry before it closes the stream *)")
+	fmt.Printf("Definition CloseConnectionShapeFound : bool := %s.\nDefinition CloseConnectionRemovesFirst : bool := %s.\n", coqBool(cf), coqBool(crf))
 	fmt.Printf("Definition BatchUpdateThreshold : N := %d%%N.\n", int64(constants.BatchUpdateThreshold))
 }
 
